@@ -529,7 +529,10 @@ pub trait RaftRoleState: Send + Sync + 'static {
                 response,
                 commit_index_update,
             }) => {
-                if let Some(commit) = commit_index_update
+                // The commit index never moves backwards: the verified prefix of a catch-up
+                // request may end below what an earlier request (possibly handled in the same
+                // drain, with the same state snapshot) has already committed.
+                if let Some(commit) = commit_index_update.filter(|c| *c > self.commit_index())
                     && let Err(e) = self.update_commit_index_with_signal(
                         state_snapshot.role,
                         state_snapshot.current_term,
